@@ -764,7 +764,16 @@ class AliasAnalysis:
             proj = [t for t in self.cg.targets(fn, call) if t.kind == 'proj' and t.how != 'by method name']
             if not proj:
                 o = self.eval(fn, f.value, st)
-                if o:
+                # a container built here (`pair = [left, right]`) holds the caller's objects but is not one of them: re-ordering or growing
+                # the container changes none of its elements
+                fresh = False
+                if isinstance(f.value, ast.Name) and meth in ('reverse', 'sort', 'append', 'extend', 'insert', 'pop', 'remove', 'clear', 'add', 'discard', 'popleft', 'appendleft', 'extendleft', 'rotate'):
+                    binds = [a_ for a_ in walk_no_nested(fn.node) if isinstance(a_, ast.Assign) and any(isinstance(t_, ast.Name) and t_.id == f.value.id for t_ in a_.targets)]
+                    fresh = bool(binds) and f.value.id not in fn.params and all(
+                        isinstance(a_.value, (ast.List, ast.Set, ast.ListComp, ast.SetComp, ast.Dict, ast.DictComp)) or
+                        (isinstance(a_.value, ast.Call) and isinstance(a_.value.func, ast.Name) and a_.value.func.id in ('list', 'set', 'dict', 'deque', 'sorted'))
+                        for a_ in binds)
+                if o and not fresh:
                     evs.append(Event(fn, call, o, f'.{meth}() modifies its receiver'))
         # project callees that mutate their parameters / the attributes of self
         if not is_ext:
